@@ -786,3 +786,72 @@ Proof.
   - intros [rr [Hin Hi]]. apply range_ok_spec in Hi. destruct (forallb range_ok ranges) eqn:E; auto.
     rewrite forallb_forall in E. rewrite (E rr Hin) in Hi. discriminate.
 Qed.
+
+(* ------------------------------------------------------------------ *)
+(* C17: the ordered-map laws of the row store (t_rows as a strictly    *)
+(* ascending association list) that the handlers rely on               *)
+(* ------------------------------------------------------------------ *)
+Section OrderedMap.
+  Context {V : Type}.
+  Implicit Types rows : list (bytes * V).
+
+  (* get after put / delete *)
+  Lemma omap_get_put_same k v rows : alookup k (ainsert k v rows) = Some v.
+  Proof. apply alookup_ainsert_same. Qed.
+  Lemma omap_get_put_other k k' v rows : k' <> k -> alookup k' (ainsert k v rows) = alookup k' rows.
+  Proof. apply alookup_ainsert_other. Qed.
+  Lemma omap_get_delete_same k rows : asorted rows -> alookup k (aremove k rows) = None.
+  Proof. apply alookup_aremove_same. Qed.
+  Lemma omap_get_delete_other k k' rows : k' <> k -> alookup k' (aremove k rows) = alookup k' rows.
+  Proof. apply alookup_aremove_other. Qed.
+  Lemma omap_put_sorted k v rows : asorted rows -> asorted (ainsert k v rows).
+  Proof. apply ainsert_sorted. Qed.
+  Lemma omap_delete_sorted k rows : asorted rows -> asorted (aremove k rows).
+  Proof. apply aremove_sorted. Qed.
+
+  (* full iteration: strictly ascending keys, hence no key twice *)
+  Lemma omap_iter_order rows : asorted rows -> StronglySorted lex_lt (map fst rows) /\ NoDup (map fst rows).
+  Proof. intros H. split; [apply asorted_keys_sorted; auto|apply sorted_lt_nodup, asorted_keys_sorted; auto]. Qed.
+
+  Lemma asorted_head_absent k v rows : asorted ((k, v) :: rows) -> alookup k rows = None.
+  Proof.
+    intros H. destruct rows as [|[k' v'] r]; [reflexivity|]. inversion H; subst. apply asorted_lookup_lt; auto.
+  Qed.
+
+  (* the list is determined by the map it represents: two sorted stores with the same lookups
+     iterate identically (nothing of the insertion history is observable) *)
+  Lemma omap_ext rows1 : forall rows2, asorted rows1 -> asorted rows2 ->
+    (forall k, alookup k rows1 = alookup k rows2) -> rows1 = rows2.
+  Proof.
+    induction rows1 as [|[k1 v1] r1 IH]; intros [|[k2 v2] r2] H1 H2 Hl.
+    - reflexivity.
+    - specialize (Hl k2). cbn in Hl. rewrite beqb_refl in Hl. discriminate.
+    - specialize (Hl k1). cbn in Hl. rewrite beqb_refl in Hl. discriminate.
+    - assert (Ek : k1 = k2).
+      { destruct (lex_cmp k1 k2) eqn:E.
+        - apply lex_eq; auto.
+        - pose proof (Hl k1) as H. rewrite (asorted_lookup_lt k2 v2 r2 k1 H2 E) in H. cbn in H. rewrite beqb_refl in H. discriminate.
+        - assert (E' : lex_lt k2 k1) by (unfold lex_lt; rewrite (lex_antisym k1 k2), E; reflexivity).
+          pose proof (Hl k2) as H. rewrite (asorted_lookup_lt k1 v1 r1 k2 H1 E') in H. cbn in H. rewrite beqb_refl in H. discriminate. }
+      subst k2. assert (Ev : v1 = v2).
+      { pose proof (Hl k1) as H. cbn in H. rewrite beqb_refl in H. congruence. }
+      subst v2. f_equal. apply IH; eauto using asorted_tail. intros k. destruct (beqb k k1) eqn:E.
+      + apply beqb_eq in E. subst k. rewrite (asorted_head_absent _ _ _ H1), (asorted_head_absent _ _ _ H2). reflexivity.
+      + specialize (Hl k). cbn in Hl. rewrite E in Hl. exact Hl.
+  Qed.
+
+  Lemma filter_subseq (g : bytes * V -> bool) rows : subseq (filter g rows) rows.
+  Proof. induction rows as [|x l IH]; cbn; [constructor|]. destruct (g x); constructor; auto. Qed.
+
+  (* range iteration (what scan_all does per range): an ascending sub-list holding exactly the
+     entries whose key is in the range *)
+  Lemma omap_range_iter sr rows : asorted rows ->
+    let it := filter (fun p => in_srange_b sr (fst p)) rows in
+    asorted it /\ subseq it rows /\ forall kv, In kv it <-> In kv rows /\ in_srange sr (fst kv).
+  Proof.
+    intros H it. split; [|split].
+    - apply keys_sorted_asorted. apply sorted_filter_keys. apply asorted_keys_sorted. auto.
+    - apply filter_subseq.
+    - intros kv. unfold it. rewrite filter_In, in_srange_b_iff. tauto.
+  Qed.
+End OrderedMap.
